@@ -33,7 +33,7 @@ var confirmedCounts = map[string]map[string][2]int{ // rule -> prop -> {default,
 	"R24": {"C05": {4, 4}, "C06": {5, 5}, "C13": {2, 2}, "C15": {1, 3}},
 	"R25": {"C05": {10, 10}, "C06": {24, 24}, "C09": {17, 17}, "C13": {10, 10}, "C15": {1, 6}},
 	"R26": {"C02": {1, 1}, "C03": {4, 4}, "C04": {3, 3}, "C05": {7, 7}, "C06": {6, 6}, "C13": {2, 2}},
-	"R27": {"C02": {6, 6}, "C03": {2, 2}, "C04": {3, 3}, "C05": {1, 1}, "C09": {12, 12}},
+	"R27": {"C02": {6, 6}, "C03": {2, 2}, "C04": {3, 3}, "C05": {1, 1}, "C09": {17, 17}},
 	"R28": {"C01": {3, 3}, "C06": {15, 15}, "C08": {4, 4}, "C09": {5, 5}, "C13": {6, 6}},
 	"R29": {"C01": {7, 7}, "C02": {2, 2}, "C06": {7, 7}},
 	"R30": {"C01": {2, 2}, "C09": {2, 2}},
